@@ -33,6 +33,11 @@ impl MoneyItem {
     }
     
     fn convert_currency(&self, config: &SmartCalcConfig, left: &MoneyItem) -> f64 {
+        /* The same currency needs no rate (most of the currencies have none, '1 kwd + 1 kwd' was 1 KWD) */
+        if left.get_currency() == self.get_currency() {
+            return left.get_price();
+        }
+
         let as_usd = match config.currency_rate.get(&left.get_currency()) {
             Some(l_rate) => do_divition(left.get_price(), *l_rate),
             _ => 0.0
